@@ -3,6 +3,7 @@ from __future__ import annotations
 
 from collections.abc import Iterable, Mapping
 from contextlib import AbstractAsyncContextManager
+from io import BytesIO
 from itertools import chain
 from typing import TypeAlias, ClassVar, Final, SupportsBytes
 
@@ -143,10 +144,15 @@ class FetchResponse(UntaggedResponse):
         return b'%i FETCH' % (self.seq, )
 
     def write(self, writer: WriteStream) -> None:
-        writer.write(b'%b %b ' % (self.tag, self.text))
+        # the whole response is serialised before anything is written, a
+        # fetch value that fails while it is loaded must not leave a partial
+        # line on the stream
+        buf = BytesIO()
+        buf.write(b'%b %b ' % (self.tag, self.text))
         data_list = List(self.data.values())
-        data_list.write(writer)
-        writer.write(b'\r\n')
+        data_list.write(buf)
+        buf.write(b'\r\n')
+        writer.write(buf.getvalue())
 
 
 class SearchResponse(UntaggedResponse):
